@@ -156,6 +156,10 @@ func runC01(s *Sim) {
 			if tg.edge && wl.Chance(1, 4) {
 				typ, key = data.PointTypeTombstone, ""
 			}
+			if !tg.edge && wl.Chance(1, 8) {
+				// type names that mean something on edges are ordinary point types on a node
+				typ = []string{data.PointTypeNodeType, data.PointTypeTombstone}[wl.Draw(2)]
+			}
 			id := PKey{typ, normKey(key)}
 			if usedT[id] == nil {
 				usedT[id] = map[int64]bool{}
